@@ -7,6 +7,7 @@ import (
 	"github.com/orda-io/orda/client/pkg/iface"
 	"github.com/orda-io/orda/client/pkg/model"
 	"github.com/orda-io/orda/client/pkg/operations"
+	"github.com/orda-io/orda/client/pkg/simhook"
 )
 
 // WiredDatatype implements the datatype features related to the synchronization with Orda server
@@ -71,8 +72,10 @@ func (its *WiredDatatype) ReceiveRemoteModelOperations(ops []*model.Operation, o
 
 // CreatePushPullPack creates a PushPullPack
 func (its *WiredDatatype) CreatePushPullPack() *model.PushPullPack {
+	simhook.Yield("wired.pack")
 	seq := its.checkPoint.Cseq
 	modelOps := its.getModelOperations(seq + 1)
+	simhook.Yield("wired.pack.ops")
 	cp := &model.CheckPoint{
 		Sseq: its.checkPoint.GetSseq(),
 		Cseq: its.checkPoint.GetCseq() + uint64(len(modelOps)),
@@ -247,10 +250,13 @@ func (its *WiredDatatype) ApplyPushPullPack(ppp *model.PushPullPack) {
 	var oldState, newState model.StateOfDatatype
 	var errs errors.OrdaError = &errors.MultipleOrdaErrors{}
 	var opList []interface{}
+	simhook.Yield("wired.apply")
 	err := its.checkOptionAndError(ppp)
 	if err == nil {
 		its.excludeDuplicatedOperations(ppp)
+		simhook.Yield("wired.apply.filtered")
 		its.syncCheckPoint(ppp.CheckPoint)
+		simhook.Yield("wired.apply.checkpoint")
 		oldState, newState, err = its.updateStateOfDatatype(ppp)
 		if err != nil {
 			errs = errs.Append(err)
@@ -286,6 +292,7 @@ func (its *WiredDatatype) callHandlers(
 func (its *WiredDatatype) DeliverTransaction(transaction []iface.Operation) {
 
 	for _, op := range transaction {
+		simhook.Yield("wired.deliver.append")
 		its.localBuffer = append(its.localBuffer, op.ToModelOperation())
 	}
 	if its.wire == nil && its.ctx.Client.SyncType != model.SyncType_REALTIME {
